@@ -157,6 +157,36 @@ func checkGffReader(c *Ctx, parse *ssa.Function) {
 		extra = append(extra, fld(k))
 	}
 	extra = append(extra, "binop[-](a, const[1])", "binop[+](a, const[1])", "extract[0](call[strconv.Atoi](a))")
+	// the columns of a row are what lies between its tabs, empty ones included: Fields / FieldsFunc never yield
+	// an empty piece, so an empty column (a feature without a seqid, an empty score) shifts every later column
+	for _, g := range view.fns {
+		g := g
+		eachInstr(g, func(i ssa.Instruction) {
+			cl, ok := i.(*ssa.Call)
+			if !ok || len(cl.Call.Args) == 0 {
+				return
+			}
+			if n := calleeName(cl); n != "strings.Fields" && n != "strings.FieldsFunc" && n != "bytes.Fields" && n != "bytes.FieldsFunc" {
+				return
+			}
+			if normText(view.T(g, cl.Call.Args[0])).String() != lineN || cl.Referrers() == nil {
+				return
+			}
+			for _, r := range *cl.Referrers() {
+				var ix ssa.Value
+				switch x := r.(type) {
+				case *ssa.IndexAddr:
+					ix = x.Index
+				case *ssa.Index:
+					ix = x.Index
+				}
+				if k, isK := ix.(*ssa.Const); isK && k.Value != nil && k.Int64() >= 1 {
+					c.bad("FIELDMAP", "Parse:columns are the pieces between tabs", cl.Pos(), "the row is cut with "+calleeName(cl)+", which never yields an empty piece, and the pieces are then taken by position: a row with an empty column has every later column read one place too early")
+					return
+				}
+			}
+		})
+	}
 	for k, cl := range cols {
 		got := ptb.at(rec, cl.path, af)
 		st, why := judgeLeaves(got, cl.want, extra...)
